@@ -15,6 +15,14 @@ What the model cannot exhibit (partial): Go-level aliasing of the shallow clones
 (`maps.Clone` shares slices) and data-race freedom — exercised by the `purity` suite under the race
 detector; map-order dependence inside one resolution — covered by the fixes F01a/F08b and by the
 resolver suite re-running every case on fresh objects.
+
+Map order inside one resolution (the `order` parameter of `Resolver.nameMap`) is proved irrelevant for
+the provider choice in `Proofs/C01.lean`: `C01.comparePackages_swo` (the repaired comparator is a
+strict weak order on all packages), `C01.comparePackages_eq_same_name`, `C01.minFunc_perm_invariant`,
+`C01.nameMap_order_irrelevant`, `C01.bestPackage_order_irrelevant`,
+`C01.resolvePackage_order_irrelevant`, and for whole resolutions `C01.resolve_order_irrelevant`;
+`C01.comparePackages_pinned_not_antisymm` / `C01.resolve_order_dependent_pinned` are the F08b witnesses
+for the pinned comparator.
 -/
 import Apko.Model.Memo
 
